@@ -11,20 +11,31 @@ theorem planted_recovered (m : Mapping Rat) (hm : ProperMapping m) (hc : Connect
     (hp : ∀ hl ∈ m, ∀ st ∈ hl.2, st.2 = T hl.1 + c st.1)
     (x : Nat → Rat) (hx : Stationary m x) :
     ∃ κ, (∀ hl ∈ m, ∀ st ∈ hl.2, x st.1 + st.2 = T hl.1 + κ) ∧
-         (∀ hl ∈ m, levelMean x hl.2 = T hl.1 + κ) := by
-  sorry
+         (∀ hl ∈ m, levelMean x hl.2 = T hl.1 + κ) :=
+  LS.planted_rec m hm hc T c hp x hx
 
 /-- the planted shifts themselves (negated) are a stationary point with zero spread -/
 theorem planted_is_stationary (m : Mapping Rat) (hm : ProperMapping m) (T : Int → Rat) (c : Nat → Rat)
     (hp : ∀ hl ∈ m, ∀ st ∈ hl.2, st.2 = T hl.1 + c st.1) :
-    Stationary m (fun s => - c s) ∧ objective m (fun s => - c s) = 0 := by
-  sorry
+    Stationary m (fun s => - c s) ∧ objective m (fun s => - c s) = 0 :=
+  LS.planted_stationary m hm T c hp
 
 /-- A rise drawn along a storage curve of constant specific yield `sy`: the segment from zero depth
     at `z0` to depth `sy·(z1 − z0)` at `z1` crosses level `k·step` at depth `sy·(k·step − z0)`. -/
 theorem rise_crossing_depth (step sy z0 z1 : Rat) (hs : 0 < step) (hz : z0 < z1) (k : Int) (x : Rat)
     (h : (k, x) ∈ crossings step [((0 : Rat), z0), (sy * (z1 - z0), z1)]) :
-    x = sy * ((k : Rat) * step - z0) := by
-  sorry
+    x = sy * ((k : Rat) * step - z0) :=
+  LS.rise_depth step sy z0 z1 hs hz k x h
+
+/-! Non-vacuity: the chained example of C05 is planted (`T = 0, 1, 4`, shifts `0, 2, 1`), and the
+    rise segment does produce a crossing. -/
+
+example : ∀ hl ∈ exChain, ∀ st ∈ hl.2,
+    st.2 = (fun k : Int => if k = 0 then (0 : Rat) else if k = 1 then 1 else 4) hl.1
+      + (fun s : Nat => if s = 0 then (0 : Rat) else if s = 1 then 2 else 1) st.1 := by
+  decide +kernel
+
+example : crossings (1 : Rat) [((0 : Rat), 1 / 2), (3 * (5 / 2 - 1 / 2), 5 / 2)]
+    = [(1, 3 / 2), (2, 9 / 2)] := by decide +kernel
 
 end Spowtd
